@@ -1,2 +1,373 @@
-/- C17 (statements are being added) -/
+/-
+  C17 — seeded generation is reproducible: in the model, generation is a function of the schemas and the
+  answers of the random source, reads the answers strictly left to right without look-ahead, and the
+  request log is a pure by-product. With "the Mersenne Twister is a function of the seed and the
+  request sequence" (trusted) this is the property; that the *code* is this function in every interpreter
+  configuration is what the cross-process check decides.
+-/
 import D42.Model.Gen
+import D42.Props.C09
+
+namespace D42
+
+/-- generating a sequence of schemas, one after the other, from one random source -/
+def genMany (env : Env) : List Schema → G (List PyVal)
+  | [] => pure []
+  | s :: ss => do let v ← gen env s; let vs ← genMany env ss; pure (v :: vs)
+
+/-! ### helper: the frame property of a generator computation
+
+  `Frame m`: a successful run of `m` consumes a prefix `used` of the answers and prepends a block `new`
+  to the request log, and the same run happens — same value, same `used`, same `new` — whatever follows
+  the prefix and whatever the log held before. It is closed under `bind`, holds of every primitive draw,
+  and therefore of every generator of the model. -/
+
+def Frame {α} (m : G α) : Prop :=
+  ∀ (st : GS) (a : α) (st' : GS), m st = .ok (a, st') →
+    ∃ used new, st.draws = used ++ st'.draws ∧ st'.reqs = new ++ st.reqs ∧
+      ∀ extra r0, m { draws := used ++ extra, reqs := r0 } = .ok (a, { draws := extra, reqs := new ++ r0 })
+
+theorem frame_pure {α} (a : α) : Frame (G.pure a) := by
+  intro st x st' h
+  obtain ⟨rfl, rfl⟩ := G.pure_ok h
+  exact ⟨[], [], by simp, by simp, fun _ _ => by simp [G.pure]⟩
+
+theorem frame_pure' {α} (a : α) : Frame (Pure.pure a : G α) := frame_pure a
+
+theorem frame_fail {α} (e : PyExc) : Frame (G.fail e : G α) := by
+  intro st x st' h
+  simp [G.fail] at h
+
+theorem frame_bind {α β} {m : G α} {f : α → G β} (hm : Frame m) (hf : ∀ a, Frame (f a)) :
+    Frame (G.bind m f) := by
+  intro st b st' h
+  obtain ⟨a, st1, h1, h2⟩ := G.bind_ok h
+  obtain ⟨u1, n1, hd1, hr1, k1⟩ := hm _ _ _ h1
+  obtain ⟨u2, n2, hd2, hr2, k2⟩ := hf a _ _ _ h2
+  refine ⟨u1 ++ u2, n2 ++ n1, by simp [hd1, hd2], by simp [hr1, hr2], ?_⟩
+  intro extra r0
+  simp only [G.bind, List.append_assoc, k1, k2]
+
+theorem frame_bind' {α β} {m : G α} {f : α → G β} (hm : Frame m) (hf : ∀ a, Frame (f a)) :
+    Frame (m >>= f) := frame_bind hm hf
+
+theorem frame_randint (a b : Int) : Frame (randint a b) := by
+  intro st x st' h
+  unfold D42.randint at h
+  split at h
+  · simp at h
+  · split at h
+    · rename_i n ds hd
+      split at h
+      · simp at h
+        obtain ⟨rfl, rfl⟩ := h
+        refine ⟨[.int n], [.randint a b], by simp [hd], by simp, ?_⟩
+        intro extra r0
+        simp [D42.randint, *]
+      · simp at h
+    · simp at h
+
+theorem frame_choiceIdx (n : Nat) : Frame (choiceIdx n) := by
+  intro st x st' h
+  unfold D42.choiceIdx at h
+  split at h
+  · simp at h
+  · split at h
+    · rename_i i ds hd
+      split at h
+      · simp at h
+        obtain ⟨rfl, rfl⟩ := h
+        refine ⟨[.idx i], [.choice n], by simp [hd], by simp, ?_⟩
+        intro extra r0
+        simp [D42.choiceIdx, *]
+      · simp at h
+    · simp at h
+
+theorem frame_choiceChar (c : List Nat) : Frame (choiceChar c) := by
+  intro st x st' h
+  unfold D42.choiceChar at h
+  split at h
+  · simp at h
+  · split at h
+    · rename_i i ds hd
+      split at h
+      · simp at h
+        obtain ⟨rfl, rfl⟩ := h
+        refine ⟨[.idx i], [.choice c.length], by simp [hd], by simp, ?_⟩
+        intro extra r0
+        simp_all [D42.choiceChar]
+      · simp at h
+    · simp at h
+
+theorem frame_uniform (env : Env) (a b : PyFloat) : Frame (uniform env a b) := by
+  intro st x st' h
+  unfold D42.uniform at h
+  split at h
+  · split at h
+    · split at h
+      · rename_i xa ya _ _ _ _ f ds hd
+        split at h
+        · simp at h
+          obtain ⟨rfl, rfl⟩ := h
+          refine ⟨[.flt f], [.uniform (.fin xa) (.fin ya)], by simp [hd], by simp, ?_⟩
+          intro extra r0
+          simp [D42.uniform, *]
+        · simp at h
+      · simp at h
+    · simp at h
+  · simp at h
+
+def extOk (kind : Nat) (v : PyVal) : Bool :=
+  match kind, v with
+  | 0, .uuid _ 4 => true
+  | 1, .datetime _ => true
+  | 2, .date _ => true
+  | _, _ => false
+
+theorem extDraw_eq (k : Nat) (st : GS) : extDraw k st =
+    match st.draws with
+    | .ext v :: ds => if extOk k v then .ok (v, { draws := ds, reqs := .ext k :: st.reqs }) else .error .badDraw
+    | _ => .error .badDraw := by
+  unfold extDraw extOk
+  rfl
+
+theorem frame_extDraw (k : Nat) : Frame (extDraw k) := by
+  intro st x st' h
+  rw [extDraw_eq] at h
+  split at h
+  · rename_i v ds hd
+    split at h
+    · simp at h
+      obtain ⟨rfl, rfl⟩ := h
+      refine ⟨[.ext v], [.ext k], by simp [hd], by simp, ?_⟩
+      intro extra r0
+      simp [extDraw_eq, *]
+    · simp at h
+  · simp at h
+
+theorem frame_liftE {α} (e : Except PyExc α) : Frame (liftE e) := by
+  intro st x st' h
+  unfold D42.liftE at h
+  split at h
+  · simp at h
+    obtain ⟨rfl, rfl⟩ := h
+    exact ⟨[], [], by simp, by simp, fun _ _ => by simp [D42.liftE]⟩
+  · simp at h
+
+
+macro "frame_tac" : tactic => `(tactic| repeat (first
+  | exact frame_pure' _ | exact frame_pure _ | exact frame_fail _
+  | exact frame_randint _ _ | exact frame_choiceIdx _ | exact frame_choiceChar _
+  | exact frame_uniform _ _ _ | exact frame_extDraw _ | exact frame_liftE _
+  | assumption
+  | refine frame_bind' ?_ (fun _ => ?_) | refine frame_bind ?_ (fun _ => ?_)
+  | split))
+
+theorem frame_randomStr (al : List Nat) : ∀ n, Frame (randomStr n al)
+  | 0 => by simp only [randomStr]; frame_tac
+  | n + 1 => by
+    have ih := frame_randomStr al n
+    simp only [randomStr]; frame_tac
+
+theorem frame_repeatG {m : G Str} (hm : Frame m) : ∀ n, Frame (repeatG m n)
+  | 0 => by simp only [repeatG]; frame_tac
+  | n + 1 => by
+    have ih := frame_repeatG hm n
+    simp only [repeatG]; frame_tac
+
+theorem frame_replicateG {m : G PyVal} (hm : Frame m) : ∀ n, Frame (replicateG m n)
+  | 0 => by simp only [replicateG]; frame_tac
+  | n + 1 => by
+    have ih := frame_replicateG hm n
+    simp only [replicateG]; frame_tac
+
+theorem frame_randomFloat (env : Env) (a b : PyFloat) (ad bd : Option Rat) (p : Option Nat) :
+    Frame (randomFloat env a b ad bd p) := by
+  unfold randomFloat; frame_tac
+
+theorem frame_genNotIn (items : List ClsItem) : Frame (genNotIn items) := by
+  unfold genNotIn; frame_tac
+
+theorem frame_genClsItem (it : ClsItem) : Frame (genClsItem it) := by
+  cases it <;> simp only [genClsItem] <;> frame_tac
+
+theorem frame_genLength (L : LenP) (a b : Int) : Frame (genLength L a b) := by
+  unfold genLength; frame_tac
+
+mutual
+theorem frame_genRe : ∀ r : Re, Frame (genRe r)
+  | .any => by simp only [genRe]; frame_tac
+  | .lit c => by simp only [genRe]; frame_tac
+  | .notLit c => by
+    have := frame_genNotIn [.lit c]
+    simp only [genRe]; frame_tac
+  | .cls true items => by
+    have := frame_genNotIn items
+    simp only [genRe]; frame_tac
+  | .cls false items => by
+    simp only [genRe]
+    refine frame_bind' (frame_choiceIdx _) (fun i => ?_)
+    split
+    · refine frame_bind' (frame_genClsItem _) (fun _ => ?_); frame_tac
+    · frame_tac
+  | .group r => by
+    simp only [genRe]; exact frame_genSeq r
+  | .rep mn mx r => by
+    simp only [genRe]
+    exact frame_bind' (frame_randint _ _) (fun n => frame_repeatG (frame_genSeq r) _)
+  | .at_ => by simp only [genRe]; frame_tac
+  | .branch alts => by
+    simp only [genRe]
+    exact frame_bind' (frame_choiceIdx _) (fun i => frame_genAlt alts i)
+  | .unsup n => by simp only [genRe]; frame_tac
+theorem frame_genSeq : ∀ r : List Re, Frame (genSeq r)
+  | [] => by simp only [genSeq]; frame_tac
+  | r :: rs => by
+    have h1 := frame_genRe r
+    have h2 := frame_genSeq rs
+    simp only [genSeq]; frame_tac
+theorem frame_genAlt : ∀ (alts : List (List Re)) (i : Nat), Frame (genAlt alts i)
+  | [], i => by simp only [genAlt]; frame_tac
+  | a :: as, 0 => by simp only [genAlt]; exact frame_genSeq a
+  | a :: as, i + 1 => by simp only [genAlt]; exact frame_genAlt as i
+end
+
+theorem frame_genScalar (env : Env) (k : ScalarS) : Frame (genScalar env k) := by
+  have hf := frame_randomFloat env
+  have hs := frame_randomStr
+  have hq := frame_genSeq
+  cases k with
+  | none => simp only [genScalar]; frame_tac
+  | bool v => cases v <;> simp only [genScalar] <;> frame_tac
+  | int v mn mx => cases v <;> simp only [genScalar] <;> frame_tac
+  | float v mn mx p d1 d2 =>
+    cases v <;> simp only [genScalar]
+    · exact frame_bind' (hf _ _ _ _ _) (fun _ => frame_pure' _)
+    · frame_tac
+  | str v L al sub pat =>
+    cases v with
+    | some v => simp only [genScalar]; frame_tac
+    | none =>
+      cases pat with
+      | some pat =>
+        simp only [genScalar]
+        exact frame_bind' (hq _) (fun _ => frame_pure' _)
+      | none =>
+        simp only [genScalar]
+        refine frame_bind' ?_ (fun _ => ?_)
+        · frame_tac
+        · split
+          · refine frame_bind' (hs _ _) (fun _ => ?_); frame_tac
+          · refine frame_bind' (hs _ _) (fun _ => ?_); frame_tac
+  | bytes v =>
+    cases v <;> simp only [genScalar]
+    · refine frame_bind' (frame_randint _ _) (fun _ => ?_)
+      refine frame_bind' (hs _ _) (fun _ => ?_); frame_tac
+    · frame_tac
+  | uuid4 v =>
+    cases v with
+    | none => simp only [genScalar]; frame_tac
+    | some p => obtain ⟨i, ver⟩ := p; simp only [genScalar]; frame_tac
+  | datetime v => cases v <;> simp only [genScalar] <;> frame_tac
+  | date v =>
+    cases v with
+    | none => simp only [genScalar]; frame_tac
+    | some p => obtain ⟨b, i⟩ := p; cases b <;> simp only [genScalar] <;> frame_tac
+
+mutual
+theorem frame_gen (env : Env) : ∀ s : Schema, Frame (gen env s)
+  | .scalar k => by simp only [gen]; exact frame_genScalar env k
+  | .listU L => by
+    have := frame_genLength L Consts.LIST_LEN_MIN Consts.LIST_LEN_MAX
+    simp only [gen]; frame_tac
+  | .listT t L => by
+    simp only [gen]
+    refine frame_bind' (frame_genLength _ _ _) (fun _ => ?_)
+    refine frame_bind' (frame_replicateG (frame_gen env t) _) (fun _ => ?_)
+    frame_tac
+  | .listE _ elems _ _ => by
+    simp only [gen]
+    exact frame_bind' (frame_genList env elems) (fun _ => frame_pure' _)
+  | .dict none _ => by simp only [gen]; frame_tac
+  | .dict (some fs) _ => by
+    simp only [gen]
+    exact frame_bind' (frame_genFields env fs) (fun _ => frame_pure' _)
+  | .any none => by simp only [gen]; frame_tac
+  | .any (some ts) => by
+    simp only [gen]
+    exact frame_bind' (frame_choiceIdx _) (fun i => frame_genNth env ts i)
+  | .alias _ t => by simp only [gen]; exact frame_gen env t
+  | .custom t => by simp only [gen]; exact frame_gen env t
+theorem frame_genList (env : Env) : ∀ ss : List Schema, Frame (genList env ss)
+  | [] => by simp only [genList]; frame_tac
+  | s :: ss => by
+    have h1 := frame_gen env s
+    have h2 := frame_genList env ss
+    simp only [genList]; frame_tac
+theorem frame_genFields (env : Env) : ∀ fs : List (PyKey × Bool × Schema), Frame (genFields env fs)
+  | [] => by simp only [genFields]; frame_tac
+  | (k, opt, s) :: fs => by
+    have h1 := frame_gen env s
+    have h2 := frame_genFields env fs
+    simp only [genFields]; frame_tac
+theorem frame_genNth (env : Env) : ∀ (ss : List Schema) (i : Nat), Frame (genNth env ss i)
+  | [], i => by simp only [genNth]; frame_tac
+  | s :: _, 0 => by simp only [genNth]; exact frame_gen env s
+  | _ :: ss, i + 1 => by simp only [genNth]; exact frame_genNth env ss i
+end
+
+theorem frame_genMany (env : Env) : ∀ ss : List Schema, Frame (genMany env ss)
+  | [] => by simp only [genMany]; frame_tac
+  | s :: ss => by
+    have h1 := frame_gen env s
+    have h2 := frame_genMany env ss
+    simp only [genMany]; frame_tac
+
+theorem Frame.log_independent {α} {m : G α} (hm : Frame m) {d d' : Draws} {r r' : List Req} {v : α}
+    (h : m { draws := d, reqs := r } = .ok (v, { draws := d', reqs := r' })) :
+    ∃ new, r' = new ++ r ∧ ∀ r0, m { draws := d, reqs := r0 } = .ok (v, { draws := d', reqs := new ++ r0 }) := by
+  obtain ⟨used, new, hd, hr, k⟩ := hm _ _ _ h
+  simp only at hd hr
+  exact ⟨new, hr, fun r0 => by rw [hd]; exact k d' r0⟩
+
+theorem Frame.no_lookahead {α} {m : G α} (hm : Frame m) {d d' : Draws} {r r' : List Req} {v : α}
+    (h : m { draws := d, reqs := r } = .ok (v, { draws := d', reqs := r' })) :
+    ∃ used, d = used ++ d' ∧ ∀ extra, m { draws := used ++ extra, reqs := r } = .ok (v, { draws := extra, reqs := r' }) := by
+  obtain ⟨used, new, hd, hr, k⟩ := hm _ _ _ h
+  simp only at hd hr
+  exact ⟨used, hd, fun extra => by rw [hr]; exact k extra r⟩
+
+/-! ### theorems to prove -/
+
+/-- the request log is only appended to and does not influence the result -/
+theorem gen_log_independent (env : Env) (s : Schema) (d d' : Draws) (r r' : List Req) (v : PyVal)
+    (h : gen env s { draws := d, reqs := r } = .ok (v, { draws := d', reqs := r' })) :
+    ∃ new, r' = new ++ r ∧ ∀ r0, gen env s { draws := d, reqs := r0 } = .ok (v, { draws := d', reqs := new ++ r0 }) :=
+  (frame_gen env s).log_independent h
+
+/-- **no look-ahead.** generation consumes a prefix of the answers and is unaffected by what follows -/
+theorem gen_no_lookahead (env : Env) (s : Schema) (d d' : Draws) (r r' : List Req) (v : PyVal)
+    (h : gen env s { draws := d, reqs := r } = .ok (v, { draws := d', reqs := r' })) :
+    ∃ used, d = used ++ d' ∧ ∀ extra, gen env s { draws := used ++ extra, reqs := r } = .ok (v, { draws := extra, reqs := r' }) :=
+  (frame_gen env s).no_lookahead h
+
+/-- the same for a sequence of schemas: the values produced for a sequence of schemas are a function of
+    the schemas and of the answers consumed -/
+theorem genMany_no_lookahead (env : Env) (ss : List Schema) (d d' : Draws) (r r' : List Req) (vs : List PyVal)
+    (h : genMany env ss { draws := d, reqs := r } = .ok (vs, { draws := d', reqs := r' })) :
+    ∃ used, d = used ++ d' ∧ ∀ extra, genMany env ss { draws := used ++ extra, reqs := r } = .ok (vs, { draws := extra, reqs := r' }) :=
+  (frame_genMany env ss).no_lookahead h
+
+/-- **the k-th request depends only on the schemas and the earlier answers**: two answer lists that
+    agree on a prefix long enough for the run on the first give the same run on the second -/
+theorem gen_prefix_determined (env : Env) (s : Schema) (d1 d2 rest1 : Draws) (r r' : List Req) (v : PyVal)
+    (h : gen env s { draws := d1, reqs := r } = .ok (v, { draws := rest1, reqs := r' }))
+    (hp : ∃ used, d1 = used ++ rest1 ∧ ∃ rest2, d2 = used ++ rest2) :
+    ∃ rest2, gen env s { draws := d2, reqs := r } = .ok (v, { draws := rest2, reqs := r' }) := by
+  obtain ⟨used, hd, k⟩ := gen_no_lookahead env s d1 rest1 r r' v h
+  obtain ⟨used', hd', rest2, rfl⟩ := hp
+  have : used' = used := List.append_cancel_right (hd'.symm.trans hd)
+  subst this
+  exact ⟨rest2, k rest2⟩
+
+end D42
